@@ -153,15 +153,38 @@ impl AstFields
 
     pub fn extract_as_bool(
         &mut self,
-        _report: &mut diagn::Report,
+        report: &mut diagn::Report,
         field_name: &str)
         -> Result<bool, ()>
     {
         let field = self.extract_optional(field_name);
         match field
         {
-            Some(_) => Ok(true),
             None => Ok(false),
+
+            // A flag written on its own switches it on;
+            // a flag given a value takes that value
+            Some(AstField { maybe_expr: None, .. }) => Ok(true),
+
+            Some(AstField { maybe_expr: Some(expr), .. }) =>
+            {
+                match expr
+                {
+                    expr::Expr::Literal(_, expr::Value::Bool(value)) =>
+                        Ok(value),
+
+                    _ =>
+                    {
+                        report.error_span(
+                            format!(
+                                "invalid value for field `{}`",
+                                field_name),
+                            expr.span());
+
+                        Err(())
+                    }
+                }
+            }
         }
     }
 
